@@ -122,6 +122,12 @@ func (k Key) MatchString(tgt string) bool {
 	vals := strings.Split(tgt, "+")
 	mods := vals[0 : len(vals)-1]
 	key := vals[len(vals)-1]
+	if key == "" && len(mods) > 0 && mods[len(mods)-1] == "" {
+		// The key is the separator itself: "Ctrl++" splits into
+		// ["Ctrl", "", ""]
+		key = "+"
+		mods = mods[:len(mods)-1]
+	}
 
 	var mask ModifierMask
 	for _, m := range mods {
